@@ -310,3 +310,15 @@ contract(f"{DC}::DHTCommunity.get_requesting_node", "get_requesting_node.refresh
                   "result is None or calls('table.add')[0].args[0] is calls('mk_node')[0].named['self']",
                   "len(calls('mk_node')) == 1"],
          note="a known requester's stored address is refreshed on every request before a token is generated or checked for it")
+
+
+# maintenance cleans EVERY storage on every run (values can have lifetimes far below MAX_ENTRY_AGE - on_store_request hands out
+# MAX_ENTRY_AGE // 2**k - so "nothing is older than an hour yet" is no reason to skip a run); Storage.clean itself: contract above
+contract(f"{DC}::DHTCommunity.value_maintenance", "value_maintenance.cleans-every-storage-every-time",
+         vars={"st1": EFFECT("storage1", clean={}, items_older_than={"returns": EXPR("[]")}),
+               "st2": EFFECT("storage2", clean={}, items_older_than={"returns": EXPR("[]")}),
+               "self": OBJ(f"{DC}::DHTCommunity", logger=LOGGER(), storages=EXPR("dict([(1, st1), (2, st2)][:n_st])"))},
+         instances=[{"n_st": 0}, {"n_st": 1}, {"n_st": 2}], call="self.value_maintenance()", raises=[],
+         ensures=["len(calls('storage1.clean')) == (1 if n_st >= 1 else 0)", "len(calls('storage2.clean')) == (1 if n_st >= 2 else 0)"],
+         bounded="0..2 storages (one per address family)",
+         note="expired values do not survive a maintenance run, whatever the other entries' ages are")
